@@ -67,7 +67,7 @@ func encW(a agg) ([]byte, error) {
 }
 
 func encS(a agg) ([]byte, error) {
-	sw := bits.NewFixedSliceWriter(int(a.size()))
+	sw := bx.DirtyWriter(int(a.size()))
 	err := a.encsw(sw)
 	return sw.Bytes(), err
 }
@@ -212,7 +212,11 @@ func historyOrder(a agg, witness string, optimize bool, swFirst bool) []byte {
 				var s4 uint64
 				p = hx.Try(func() {
 					s4 = a.size()
-					sw := bits.NewFixedSliceWriter(int(s4 + extra))
+					dirty := make([]byte, int(s4+extra)) // a re-used output buffer, not zero-initialised
+					for j := range dirty {
+						dirty[j] = 0xa5
+					}
+					sw := bits.NewFixedSliceWriterFromSlice(dirty)
 					e4 = a.encsw(sw)
 					b4 = sw.Bytes()
 				})
